@@ -234,7 +234,7 @@ pub fn generate(tier: &str, seed: u64) -> Vec<Rec> {
             let asize = if logn >= 14 { 1 } else { 2 };
             let ps = vec![be, n as i128, 1, asize as i128, 0, 1, asize as i128, 0, 1, 1, 0, 1, 0];
             out.push(Rec::new(7001, ps, vec![vals(&mut rng, n * asize, 45)]));
-            if logn <= 13 || tier == "thorough" {
+            if logn <= 13 || (tier == "thorough" && logn <= 14) {   // the exact product of the model is quadratic in N
                 let ps = vec![be, n as i128, 1, 1, 0, 1, 1, 0, 1, 1, 0];
                 out.push(Rec::new(7003, ps, vec![vals(&mut rng, n, 44), vals(&mut rng, n, 44)]));
             }
